@@ -29,6 +29,7 @@ CONSTANTS
     UserFiles,  \* files the user may write by hand
     RmFiles,    \* files the user may remove
     DoEdits,    \* .do files the user may edit / remove / add
+    TmpFiles,   \* targets for which a stale <t>.redo.tmp may be lying around (left by a killed earlier run)
     MaxHist,    \* bound on the number of user-level steps
     MaxCmds,    \* bound on the number of commands among them
     UnlockedBug, \* TRUE: redo-unlocked re-runs its deps instead of its target (pinned defect)
@@ -175,6 +176,13 @@ UserRemove(n) ==
     /\ hist' = Append(hist, [a |-> "rm", n |-> n])
     /\ UNCHANGED <<tmp, clock, w, runid, locks, procs, cmd, ran, ncmds, pool>>
     /\ gh' = Bump(n)
+
+\* a stale temporary output file appears beside n (what a killed earlier build leaves behind)
+UserTmp(n) ==
+    /\ CanAct /\ n \in TmpFiles /\ n \notin tmp
+    /\ tmp' = tmp \cup {n}
+    /\ hist' = Append(hist, [a |-> "tmp", n |-> n])
+    /\ UNCHANGED <<fs, clock, w, runid, locks, procs, cmd, ran, ncmds, pool, gh>>
 
 \* next version of the rule text (new content, new stamp)
 DoEdit(df) ==
@@ -570,7 +578,8 @@ ScriptStep(s) ==
                                  !.std  = (@ \/ o.ch \in {"stdout", "both"}),
                                  !.file = (@ \/ o.ch \in {"file", "both"})]]
                  /\ tmp' = IF o.ch \in {"file", "both"} THEN tmp \cup {S.t} ELSE tmp
-                 /\ IF o.ch = "direct" THEN
+                 \* "directold": written to $1 and given an old mtime (cp -p): any different stamp counts as modified
+                 /\ IF o.ch \in {"direct", "directold"} THEN
                        /\ fs' = [fs EXCEPT ![S.t] = [ex |-> TRUE, val |-> val, ver |-> clock + 1,
                                                      own |-> "script"]]
                        /\ clock' = clock + 1
@@ -681,6 +690,7 @@ ProcStep ==
 UserStep ==
     \/ \E n \in UserFiles : UserWrite(n)
     \/ \E n \in RmFiles : UserRemove(n)
+    \/ \E n \in TmpFiles : UserTmp(n)
     \/ \E df \in DoEdits : DoEdit(df) \/ DoRemove(df) \/ DoAdd(df)
     \/ \E c \in Cmds : StartBuild(c) \/ Query(c)
 
